@@ -56,6 +56,8 @@ struct RecPersister {
 	/// last counterparty-commitment / holder-commitment info seen per channel
 	last_cp: Mutex<HashMap<usize, Value>>,
 	pending: Mutex<Vec<(usize, u64)>>,
+	/// per snapshot: was it handed to the disk as InProgress (it has landed once its id is no longer pending)
+	snap_inprog: Mutex<Vec<bool>>,
 	keys: &'static TestKeysInterface,
 	fee_est: &'static TestFeeEstimator,
 	logger: &'static TestLogger,
@@ -225,6 +227,7 @@ impl RecPersister {
 		let prev: Option<Vec<u8>> = self.snapshots.lock().unwrap().iter().rev().find(|s| s.0 == c).map(|s| s.2.clone());
 		let rt = round_trips(self, prev.as_ref(), update, mon);
 		self.snapshots.lock().unwrap().push((c, id, mon.encode()));
+		self.snap_inprog.lock().unwrap().push(inprog);
 		*self.nwrites.lock().unwrap() += 1;
 		if inprog {
 			self.pending.lock().unwrap().push((c, id));
@@ -1220,7 +1223,9 @@ impl Net {
 				// everything that was broadcast is mined at once, block after block, until every timelock
 				// of the run has expired; messages and monitor writes flow freely in between
 				let keep = op["keep_holds"].as_bool().unwrap_or(false);
-				for i in 0..n { *self.persisters[i].in_progress.lock().unwrap() = false; if !keep { self.hold_events[i] = false; } }
+				// (`async`: nodes whose monitor writes stay in flight for the whole stretch -- a slow disk)
+				let slow: Vec<usize> = op["async"].as_array().map(|v| v.iter().filter_map(|x| x.as_u64()).map(|x| x as usize).collect()).unwrap_or_default();
+				for i in 0..n { if !slow.contains(&i) { *self.persisters[i].in_progress.lock().unwrap() = false; } if !keep { self.hold_events[i] = false; } }
 				let edges = self.edges.clone();
 				for (a, b) in edges { self.step(&json!({"op":"reconnect","a":a,"b":b}), rng); }
 				self.ev(json!({"ev":"settle_chain"}));
@@ -1232,6 +1237,7 @@ impl Net {
 					if round % 40 == 39 || round + 2 == rounds { for i in 0..n { self.nodes[i].chain_monitor.chain_monitor.archive_fully_resolved_channel_monitors(); } self.drain(); }
 					self.mine_block();
 					for i in 0..n {
+						if slow.contains(&i) { continue; }
 						let pend = self.persisters[i].pending.lock().unwrap().clone();
 						for (c, id) in pend {
 							self.persisters[i].pending.lock().unwrap().retain(|x| *x != (c, id));
@@ -1536,6 +1542,7 @@ impl Net {
 		// monitors
 		let snaps = self.persisters[i].snapshots.lock().unwrap().clone();
 		let pend = self.persisters[i].pending.lock().unwrap().clone();
+		let inprog_flags = self.persisters[i].snap_inprog.lock().unwrap().clone();
 		let mut chans: Vec<usize> = snaps.iter().map(|s| s.0).collect();
 		chans.sort(); chans.dedup();
 		let mut mons: Vec<Vec<u8>> = Vec::new();
@@ -1543,11 +1550,10 @@ impl Net {
 		let mut not_landed: Vec<usize> = Vec::new();
 		for c in chans {
 			let idxs: Vec<usize> = (0..snaps.len()).filter(|x| snaps[*x].0 == c).collect();
-			let first_pending = pend.iter().filter(|p| p.0 == c).map(|p| p.1).min();
-			let durable = match first_pending {
-				Some(pid) => idxs.iter().rev().find(|x| snaps[**x].1 < pid).cloned().unwrap_or(idxs[0]),
-				None => *idxs.last().unwrap(),
-			};
+			// the last write that has landed: handed over as Completed, or InProgress and reported complete since
+			// (every write is the whole monitor, so it contains what earlier, still pending writes carry)
+			let landed = |x: usize| !inprog_flags.get(x).cloned().unwrap_or(false) || !pend.iter().any(|p| p.0 == c && p.1 == snaps[x].1);
+			let durable = idxs.iter().rev().find(|x| landed(**x)).cloned().unwrap_or(idxs[0]);
 			let latest = *idxs.last().unwrap();
 			let pick = if reload { latest } else { match by_chan.get(&c).map(|s| s.as_str()).unwrap_or(mon_choice) {
 				"latest" => latest,
@@ -1563,6 +1569,10 @@ impl Net {
 			let mut sn = self.persisters[i].snapshots.lock().unwrap();
 			let mut x = 0;
 			sn.retain(|_| { x += 1; !not_landed.contains(&(x - 1)) });
+			let mut fl = self.persisters[i].snap_inprog.lock().unwrap();
+			let mut y = 0;
+			fl.retain(|_| { y += 1; !not_landed.contains(&(y - 1)) });
+			for f in fl.iter_mut() { *f = false; }
 		}
 		self.persisters[i].pending.lock().unwrap().clear();
 		*self.persisters[i].in_progress.lock().unwrap() = false;
@@ -1632,7 +1642,7 @@ fn build_net(run: u64, cfg: &Value, log: &Log) -> Net {
 	let txids = Arc::new(Mutex::new(HashMap::new()));
 	let persisters: &'static Vec<RecPersister> = leak((0..n).map(|i| RecPersister {
 		node: i, log: log.clone(), in_progress: Mutex::new(false), chans: chans.clone(), hashes: hashes.clone(),
-		snapshots: Mutex::new(Vec::new()), nwrites: Mutex::new(0), quiet: Mutex::new(false), last_cp: Mutex::new(HashMap::new()), pending: Mutex::new(Vec::new()),
+		snapshots: Mutex::new(Vec::new()), nwrites: Mutex::new(0), quiet: Mutex::new(false), last_cp: Mutex::new(HashMap::new()), pending: Mutex::new(Vec::new()), snap_inprog: Mutex::new(Vec::new()),
 		keys: &cfgs[i].keys_manager, fee_est: &cfgs[i].fee_estimator, logger: &cfgs[i].logger, txids: txids.clone(),
 	}).collect());
 	let mut node_cfgs_v = create_node_cfgs_with_persisters(n, cfgs, persisters.iter().collect());
